@@ -112,12 +112,17 @@ func expandDefs(text string, defs map[string]string) string {
 	})
 }
 
+// asciiFields splits at runs of the white space the format knows (\s of RE2: tab, newline, form feed, carriage
+// return, space); a no-break space, a vertical tab or U+3000 is part of a token.
+func asciiFields(s string) []string {
+	return strings.FieldsFunc(s, func(r rune) bool { return r == ' ' || r == '\t' || r == '\n' || r == '\f' || r == '\r' })
+}
+
 func parsePairs(s string) ([][2]string, error) {
-	s = strings.TrimSpace(s)
-	if s == "" {
+	f := asciiFields(s)
+	if len(f) == 0 {
 		return nil, nil
 	}
-	f := strings.Fields(s)
 	if len(f)%2 != 0 {
 		return nil, fmt.Errorf("odd replacement list")
 	}
@@ -243,7 +248,7 @@ func includeExcept(line string, files *Files, depth int) ([]string, error) {
 	if err != nil {
 		return nil, err
 	}
-	excl := strings.Fields(m[2])
+	excl := asciiFields(m[2])
 	if len(excl) == 0 {
 		return nil, fmt.Errorf("include-except without exclude file")
 	}
